@@ -47,6 +47,7 @@ impl Prop for C10 {
             "query_with_unformattable_datum",
             "tolerant_responder_carries_on_after_failed_datum",
             "query_without_output",
+            "bounded_buffer_about_as_long_as_the_response",
             "no_query_of_the_message_answers",
             "query_first",
             "query_last",
@@ -130,17 +131,35 @@ impl Prop for C10 {
                 units.push(u);
             }
             let end = *rng.pick(&["", "", "\n", "\r\n", " ", " \n", ";", ";", ";\n", "; "]);
-            let fmt = if rng.chance(1, 3) {
+            let mut fmt = if rng.chance(1, 3) {
                 FmtCfg::Array {
                     cap: *rng.pick(&[1024usize, 4096]),
                 }
             } else {
                 FmtCfg::Vec
             };
+            let msg = Msg { units, end: B::from(end) };
+            if rng.chance(1, 8) {
+                // a bounded buffer that is exactly as long as the response, or a byte or two
+                // shorter / longer (a message that then still "succeeds" must be framed completely)
+                let probe = SendStep {
+                    ctl: 0,
+                    fmt: FmtCfg::Vec,
+                    msg: msg.clone(),
+                    corrupt: vec![],
+                };
+                let p = predict(&tc.root, &crate::props::c15::fresh_shadow(&cfg), &probe, Reading::Condition);
+                if let Some(o) = &p.out {
+                    if !o.is_empty() && o.len() < 190 {
+                        let cap = (o.len() as i64 + *rng.pick(&[-1i64, -1, -2, 0, 0, 1])).max(0) as usize;
+                        fmt = FmtCfg::Array { cap };
+                    }
+                }
+            }
             t.steps.push(Step::Send(SendStep {
                 ctl: 0,
                 fmt,
-                msg: Msg { units, end: B::from(end) },
+                msg,
                 corrupt: vec![],
             }));
         }
@@ -151,9 +170,24 @@ impl Prop for C10 {
         struct H;
         impl StepHandler for H {
             fn on_send(&mut self, world: &mut World, before: &ModelState, i: usize, s: &SendStep, o: &SendObs, stats: &mut Stats, out: &mut Vec<Finding>) {
-                let pred = super::predict_seen(world, before, s, o, Reading::Condition);
+                let mut pred = super::predict_seen(world, before, s, o, Reading::Condition);
                 if !pred.structural {
                     return;
+                }
+                if let (FmtCfg::Array { cap }, true, true) = (&s.fmt, o.result.is_ok(), matches!(pred.result, Err(ExpErr::Code(-225)))) {
+                    // the response should not have fitted - but the message succeeded: whatever the
+                    // capacity, a successful message holds the complete, framed response
+                    let mut sv = s.clone();
+                    sv.fmt = FmtCfg::Vec;
+                    let pv = predict(&world.root, before, &sv, Reading::Condition);
+                    if pv.structural && pv.result.is_ok() {
+                        stats.bump("succeeded_in_a_buffer_predicted_too_small");
+                        let _ = cap;
+                        pred = pv;
+                    }
+                }
+                if matches!(s.fmt, FmtCfg::Array { cap } if cap < 200) {
+                    stats.probe("bounded_buffer_about_as_long_as_the_response");
                 }
                 if pred.result.is_err() {
                     // a query one of whose data cannot be formatted at all (the write fails, the
